@@ -393,7 +393,7 @@ package ply
 //@ spec inRecord(buf []byte, o int, t ScalarPropertyType) bool = 0 <= o && o + t.Size() <= len(buf)
 
 //@ func builtBinaryVector3PropertyReader.Read
-//@   props C08
+//@   props C08 C04
 //@   modifies bv3pr.arr
 //@   requires bv3pr != nil && 0 <= i && i < len(bv3pr.arr) && binType(bv3pr.scalarType)
 //@   requires offsets_inside_record: inRecord(buf, bv3pr.xOffset, bv3pr.scalarType) && inRecord(buf, bv3pr.yOffset, bv3pr.scalarType) && inRecord(buf, bv3pr.zOffset, bv3pr.scalarType)
@@ -404,7 +404,7 @@ package ply
 //@   ensures other_vertices_untouched: forall k int :: 0 <= k && k < len(bv3pr.arr) && k != i ==> bv3pr.arr[k] == old(bv3pr.arr[k])
 
 //@ func builtVector2PropertyReader.Read
-//@   props C08
+//@   props C08 C04
 //@   modifies bv2pr.arr
 //@   requires bv2pr != nil && 0 <= i && i < len(bv2pr.arr) && binType(bv2pr.scalarType)
 //@   requires offsets_inside_record: inRecord(buf, bv2pr.xOffset, bv2pr.scalarType) && inRecord(buf, bv2pr.yOffset, bv2pr.scalarType)
@@ -415,7 +415,7 @@ package ply
 //@   ensures other_vertices_untouched: forall k int :: 0 <= k && k < len(bv2pr.arr) && k != i ==> bv2pr.arr[k] == old(bv2pr.arr[k])
 
 //@ func builtVector4PropertyReader.Read
-//@   props C08
+//@   props C08 C04
 //@   modifies bv3pr.arr
 //@   requires bv3pr != nil && 0 <= i && i < len(bv3pr.arr) && binType(bv3pr.scalarType)
 //@   requires offsets_inside_record: inRecord(buf, bv3pr.xOffset, bv3pr.scalarType) && inRecord(buf, bv3pr.yOffset, bv3pr.scalarType) && inRecord(buf, bv3pr.zOffset, bv3pr.scalarType) && inRecord(buf, bv3pr.wOffset, bv3pr.scalarType)
@@ -426,7 +426,7 @@ package ply
 //@   ensures other_vertices_untouched: forall k int :: 0 <= k && k < len(bv3pr.arr) && k != i ==> bv3pr.arr[k] == old(bv3pr.arr[k])
 
 //@ func builtVector1PropertyReader.Read
-//@   props C08
+//@   props C08 C04
 //@   modifies bv1pr.arr
 //@   requires bv1pr != nil && 0 <= i && i < len(bv1pr.arr) && binType(bv1pr.scalarType)
 //@   requires offsets_inside_record: inRecord(buf, bv1pr.offset, bv1pr.scalarType)
